@@ -19,13 +19,15 @@ RULE = ('multi-segment multi-chunk model files with several channels; non-trivia
         'other channels and has >=2 chunks; distinct = (per-segment signatures, channel)')
 ASSUMPTIONS = ['"constant number of bytes per segment touched" = the 4-byte segment tag the reader verifies before reading a segment',
                'an empty request may touch at most the one chunk containing its offset']
-REQUIRED = ['daqmx_files', 'requests', 'reads_checked', 'cached_index_checked', 'bytes_allowed', 'requests_partial']
+REQUIRED = ['truncated_files', 'daqmx_files', 'requests', 'reads_checked', 'cached_index_checked', 'bytes_allowed', 'requests_partial']
 N = {'quick': 800, 'thorough': 200000}
 
 
 def gen_cases(tier, seed):
     for i in range(N[tier]):
         yield {'s': seed * 1000003 + i}
+    for i in range(N[tier] // 4):
+        yield {'s': seed * 1000003 + i, 'cut': True}
     for i in range(N[tier] // 4):
         yield {'s': seed * 1000003 + i, 'daqmx': True}
 
@@ -39,8 +41,9 @@ def build(case):
             return segs, rng
 
 
-def chunk_table(segs, lay, path):
-    """[(seg index, value_start, value_end, (region_start, region_len))] per chunk holding values of path."""
+def chunk_table(segs, lay, path, cut=None):
+    """[(seg index, value_start, value_end, (region_start, region_len))] per chunk holding values of path.
+    cut: the file ends there (inside the last segment, contiguous fixed-size data): a channel keeps the whole values present."""
     out, pos = [], 0
     for si, (s, l) in enumerate(zip(segs, lay.segs)):
         for p, ix in s.data_objects():
@@ -48,8 +51,17 @@ def chunk_table(segs, lay, path):
                 continue
             for (cstart, clen, per) in l['chunks']:
                 region = (cstart, clen) if s.interleaved else per[p]
-                out.append((si, pos, pos + ix[1], region))
-                pos += ix[1]
+                nvals = ix[1]
+                if cut is not None and region[0] + region[1] > cut:
+                    if s.interleaved:
+                        return None
+                    size = M.TYPES[ix[0]][2]
+                    nvals = max(0, cut - region[0]) // size
+                    region = (region[0], nvals * size)
+                    if nvals == 0:
+                        continue
+                out.append((si, pos, pos + nvals, region))
+                pos += nvals
     return out
 
 
@@ -117,6 +129,14 @@ def run_case(case, ctx):
     from nptdms import TdmsFile
     segs, rng = build(case)
     blob, _, lay = M.encode_file(segs)
+    cut = None
+    if case.get('cut'):
+        last = lay.segs[-1]
+        if segs[-1].interleaved or any(ix[0] == 'str' for _, ix in segs[-1].data_objects()) or last['end'] - last['data_start'] < 2:
+            return
+        cut = rng.randrange(last['data_start'] + 1, last['end'])
+        blob = blob[:cut]
+        ctx.count('truncated_files')
     ctx.evaluation()
     exp = M.Expected(segs)
     stream = TraceIO(blob)
@@ -128,7 +148,11 @@ def run_case(case, ctx):
             g, c = M.split_path(p)
             ch = tf[g][c]
             n = len(ch)
-            table = chunk_table(segs, lay, p)
+            table = chunk_table(segs, lay, p, cut)
+            if table is None:
+                continue
+            if cut is not None and sum(t[2] - t[1] for t in table) != n:
+                continue        # the reader counts this channel differently in the truncated chunk (C06 judges that); regions would not line up
             ctx.evaluation()
             if n == 0 or not table:
                 continue
@@ -166,6 +190,16 @@ def run_case(case, ctx):
                 mark = stream.mark()
                 ch[i]
                 judge(ctx, stream, mark, [(lay.segs[t[0]]['start'], 4), t[3]], 'index/' + layk, {'path': p, 'index': i, 'n': n, 'segments': desc})
+                # other requests on the same channel in between do not evict the chunk an index has just fetched
+                mark0 = stream.mark()
+                ch[i]
+                ch.read_data(rng.randrange(n), 1)
+                ch[rng.randrange(n):rng.randrange(n) + 1]
+                mark1 = stream.mark()
+                ch[i]
+                ctx.count('cached_index_checked')
+                if stream.reads_since(mark1):
+                    ctx.violation('index-into-cached-chunk-reads-file/after-window-reads', {'path': p, 'index': i, 'reads': stream.reads_since(mark1)[:6], 'segments': desc})
                 for j in list(range(t[1], t[2])) + [k - n for k in range(t[1], t[2])]:
                     mark = stream.mark()
                     ch[j]
